@@ -49,7 +49,7 @@ from vlib.pipeline import Case
 
 PID = "C18"
 GEN = []
-LEAN = ["Ymq.Props.C18", "Ymq.Props.C18C19"]
+LEAN = ["Ymq.Props.C18", "Ymq.Props.C18C19", "Ymq.Props.C18Forms", "Ymq.Props.C18Legendre"]
 AUDIT = "Ymq.Audit.C18"
 PROFILES = ["release", "chk"]
 TIMEOUT = 60.0
@@ -958,6 +958,156 @@ def boundary_cases(rng, tier):
                 yield Case(f"cg_b_plus {p} {r} {even}")
 
 
+# ---- C18 / legendre: paste into props/c18.py (uses only `Case`, already imported there) ---------------------
+# op: `cg_legendre d p` -> i32 returned by classgroup::legendre(&d, p)   (harness: ops_classgroup_legendre.rs,
+# driver: Drv/ClassGroupLegendre.lean, model: Ymq.ClassGroup.legendre, theorems: Ymq.Props.C18Legendre)
+#
+# Behaviour of the real code (both sides verified by hand, 2026-09-29):
+#   odd prime p < 2^30          : Legendre symbol, both profiles                       (K + O)
+#   p = 2                       : d mod 2, both profiles                               (K + O)
+#   p = 0, 1, 2^k (k>=2), >=2^30: panic in BOTH profiles (Dividers::new)               (K + O, expected `panic`)
+#   other composite p < 2^30    : x = d^(p//2) mod p; x in {0,1} -> x, x = p-1 -> -1 in both profiles;
+#                                 otherwise chk panics (debug_assert!(pow == p-1)) and release returns x - p.
+#                                 Those profile dependent requests are issued with profiles=["chk"] (K against the
+#                                 model, which has the checked profile's panic) and once more with
+#                                 profiles=["release"], k=False (O accepts `x - p`).
+
+LEG_P16, LEG_P29, LEG_P30 = 65521, 536870909, 1073741789     # largest primes below 2^16, 2^29, 2^30
+LEG_REJECTED = [0, 1, 4, 8, 64, 2 ** 16, 2 ** 29, 2 ** 30, 1073741827, 2 ** 31 - 1, 2147483659, 4294967291, 2 ** 32 - 1]
+#   1073741827 = first prime above 2^30, 2^31-1 = largest prime below 2^31, 2147483659 = first prime above 2^31,
+#   4294967291 = largest prime below 2^32
+
+
+def _leg_is_prime(n):
+    if n < 2:
+        return False
+    for q in (2, 3, 5, 7, 11, 13, 17, 19, 23, 29, 31, 37):
+        if n % q == 0:
+            return n == q
+    d, s = n - 1, 0
+    while d % 2 == 0:
+        d //= 2
+        s += 1
+    for a in (2, 3, 5, 7, 11, 13, 17, 19, 23, 29, 31, 37):      # deterministic below 3.3e24
+        x = pow(a, d, n)
+        if x in (1, n - 1):
+            continue
+        for _ in range(s - 1):
+            x = x * x % n
+            if x == n - 1:
+                break
+        else:
+            return False
+    return True
+
+
+def _leg_rand_prime(rng, bits):
+    while True:
+        p = rng.randrange(1 << (bits - 1), 1 << bits) | 1
+        if p > 2 and _leg_is_prime(p):
+            return p
+
+
+def _leg_ds(rng, p):
+    """d values for one modulus p >= 2: boundary sizes of Uint, multiples of p, residues, non-residues"""
+    ds = [0, 1, 2, p - 1, p, p + 1, 2 * p, p * p, 2 ** 63, 2 ** 64 - 1, 2 ** 64, 2 ** 64 + 1, 2 ** 127, 2 ** 128 - 1,
+          2 ** 255, 2 ** 256 - 1, 2 ** 512 + 1, 2 ** 1023, 2 ** 1024 - 1]
+    ds.append(p * rng.randrange(1, 2 ** 990))                              # multiple of p, ~1020 bits
+    for bits in (1, 64, 65, 128, 256, 1024):
+        ds.append(rng.randrange(1 << (bits - 1), 1 << bits))
+    x = rng.randrange(1, p) if p > 1 else 0
+    ds.append(x * x)                                                       # a square
+    ds.append(x * x % p + p * rng.randrange(2 ** 200))                     # a residue, large representative
+    if p > 2 and _leg_is_prime(p):
+        n = 2
+        while pow(n, (p - 1) // 2, p) != p - 1:
+            n += 1
+        ds.append(n)                                                       # least non-residue
+        ds.append(n * x * x % p + p * rng.randrange(2 ** 64))              # a random non-residue
+    return [d for d in ds if 0 <= d < 2 ** 1024]
+
+
+def _leg_expect(d, p):
+    """('val', v) | ('panic',) | ('profile', v_release) for the request `cg_legendre d p`"""
+    if p >= 2 ** 30 or p < 2 or (p & (p - 1)) == 0 and p != 2:
+        return ("panic",)
+    if p == 2:
+        return ("val", d % 2)
+    x = pow(d, p // 2, p)
+    if x <= 1:
+        return ("val", x)
+    if x == p - 1:
+        return ("val", -1)
+    assert not _leg_is_prime(p)
+    return ("profile", x - p)
+
+
+def legendre_cases(rng, tier):
+    """list of Case; requests are `c.line`"""
+    quick = tier == "quick"
+    out = []
+
+    def emit(d, p, tag):
+        e = _leg_expect(d, p)
+        if e[0] == "profile":
+            out.append(Case(f"cg_legendre {d} {p}", tag=tag + "/chk-only-panic", profiles=["chk"]))
+            out.append(Case(f"cg_legendre {d} {p}", k=False, tag=tag + "/release-value", profiles=["release"]))
+        else:
+            out.append(Case(f"cg_legendre {d} {p}", tag=tag))
+
+    # p = 2 and the smallest odd primes: every residue, plus the boundary d
+    for d in list(range(8)) + _leg_ds(rng, 2):
+        emit(d, 2, "leg/p=2")
+    for p in (3, 5, 7, 11, 13):
+        for d in list(range(2 * p + 1)) + _leg_ds(rng, p):
+            emit(d, p, "leg/small-prime")
+    # boundary primes of the accepted range
+    for p in (LEG_P16, 65537, LEG_P29, 536870923, LEG_P30):
+        for d in _leg_ds(rng, p):
+            emit(d, p, "leg/boundary-prime")
+    # random primes of every bit length 2..30
+    for bits in range(2, 31):
+        for _ in range(1 if quick else 6):
+            p = _leg_rand_prime(rng, bits)
+            for d in _leg_ds(rng, p)[-8:] + [rng.randrange(2 ** 1024)]:
+                emit(d, p, "leg/random-prime")
+    # moduli rejected by Dividers::new in both profiles
+    for p in LEG_REJECTED:
+        for d in (0, 1, 3, 2 ** 64 + 5, 2 ** 1024 - 1):
+            emit(d, p, "leg/rejected-modulus")
+    # composite moduli accepted by Dividers::new: deterministic and profile dependent requests
+    for p in (6, 9, 15, 21, 25, 91, 561, 65535, 2 ** 30 - 1, LEG_P16 * 16381, 32749 * 32771):
+        for d in [0, 1, 2, 3, p - 1, p, p + 1, 8, 2 ** 64, 2 ** 1024 - 1] + [rng.randrange(2 ** 256) for _ in range(4)]:
+            emit(d, p, "leg/composite")
+    return out
+
+
+def legendre_oracle(case, ans):
+    """None if fine, else an error string. Plain integers: Euler's criterion, and for p < 5000 the list of squares."""
+    d, p = int(case.args[0]), int(case.args[1])
+    e = _leg_expect(d, p)
+    if e[0] == "panic":
+        return None if ans == "panic" else f"modulus {p} must be rejected (Dividers::new), got {ans}"
+    if e[0] == "profile":
+        # composite modulus, d^(p//2) mod p not in {0, 1, p-1}: chk panics, release returns x - p
+        return None if ans in ("panic", str(e[1])) else f"composite p={p}: expected panic (chk) or {e[1]} (release), got {ans}"
+    want = e[1]
+    if p > 2 and p < 5000 and _leg_is_prime(p):
+        sq = {x * x % p for x in range(1, p)}
+        brute = 0 if d % p == 0 else (1 if d % p in sq else -1)
+        if brute != want:
+            return f"oracle self-check failed for d={d} p={p}"
+    return None if ans == str(want) else f"legendre({d}, {p}) = {ans}, expected {want}"
+
+
+def legendre_klass(case, ans):
+    d, p = int(case.args[0]), int(case.args[1])
+    e = _leg_expect(d, p)
+    kind = "p=2" if p == 2 else ("rejected" if e[0] == "panic" else ("odd-prime" if _leg_is_prime(p) else "composite"))
+    sz = "d=0" if d == 0 else ("p|d" if p > 1 and d % p == 0 else ("d<2^64" if d < 2 ** 64 else "d>=2^64"))
+    return f"cg_legendre/{kind}/{sz}/{ans if ans in ('panic', '0', '1', '-1', '?', 'abort', 'hang') else 'other'}"
+
+
 def cases(tier, rng, extended=False):
     quick = tier == "quick"
     scale = 1 if quick else 6
@@ -969,6 +1119,7 @@ def cases(tier, rng, extended=False):
     yield from boundary_cases(_fork(rng, "C18-boundary"), tier)
     if not extended:
         yield from ymcls_cases(tier, rng)
+    yield from legendre_cases(_fork(rng, "C18-legendre"), tier)
     yield from bplus_cases(rng, 1500 * scale)
     yield from history_cases(rng, 400 * scale)
     yield from filter_cases(rng, scale)
@@ -1376,6 +1527,8 @@ def oracle(case, ans):
         return ymcls_oracle(case, ans)
     case = _norm(case)
     op, a = case.op, case.args
+    if op == "cg_legendre":
+        return legendre_oracle(case, ans)
     if op == "cg_b_plus":
         p, r, even = int(a[0]), int(a[1]), a[2] == "true"
         if not ans.isdigit():
@@ -1843,6 +1996,8 @@ def klass(case, ans):
 
 def _klass(case, ans):
     op, a = case.op, case.args
+    if op == "cg_legendre":
+        return legendre_klass(case, ans)
     bad = "/" + ans if ans in ("panic", "abort", "hang", "?", "none") else ""
     if op == "cg_b_plus":
         p, r = int(a[0]), int(a[1])
@@ -1905,14 +2060,28 @@ def nontrivial(case, ans):
 THEOREMS = ["Ymq.C18." + t for t in (
     "b_plus_unique parity_exactly_one bPlus_spec_odd bPlus_spec_even sign_total sign_exclusive large_sign_consistent poly_factors_total relation_no_panic "
     "emitted_subset_inputs complete_relations_emitted store_total emit_hom emit_hom_map relLine_val filter_hom "
-    "reduced_enum_sound reduced_enum_complete reduced_enum_nodup reduced_enum invariants_multiply invariantsOk_spec").split()] + [
+    "reduced_enum_sound reduced_enum_complete reduced_enum_nodup reduced_enum invariants_multiply invariantsOk_spec "
+    # Props/C18Forms: a sieved relation is a genuine relation
+    "value_form_equiv dirichlet_composition concordant_product product_disc prime_form_sign_odd prime_form_sign_two normalised_root_exists "
+    "relation_genuine primitive_of_fundamental relation_genuine_fundamental theRoot_is_b_plus reduce_pequiv "
+    # Props/C18Legendre: classgroup::legendre
+    "legendre_eq_legendreSym_partial legendre_no_panic legendre_two legendre_residue_form legendre_panics_of_ge_two_pow_30 "
+    "legendre_large_prime_panics legendre_panics_small_moduli legendre_composite_debug_assert").split()] + [
     "Ymq.C18C19.reported_invariants_multiply"]
 HYPOTHESES = [
     "classNumber_is_reduced_count (definition, not proved): the class number h(D) of the imaginary quadratic order of discriminant D "
     "is the number of reduced primitive positive definite forms of discriminant D (Gauss); `classNumber D` is DEFINED as that count, "
     "theorem reduced_enum proves the enumeration exact",
-    "emit_hom takes the triviality of every INPUT relation as its hypothesis (phi kills the inputs): that a sieved relation is a genuine "
-    "relation needs the theory of composition of forms, which is not formalised here",
+    "emit_hom takes the triviality of every INPUT relation as its hypothesis (phi kills the inputs); relation_genuine (Props/C18Forms) proves it "
+    "for the relations built by relationOf in the form `the prime forms of the entries compose to the principal form` (explicit Dirichlet "
+    "compositions of concordant forms); the passage from that statement to `phi kills the relation` for the class map phi needs that composition "
+    "is well defined on classes (Gauss), which is not formalised",
+    "relation_genuine.hlarge: the large primes of the relation are odd primes (what fbase::cofactor debug-asserts for a single large prime and "
+    "what try_factor64 returns; the sieve reports every factor-base prime dividing the value)",
+    "relation_genuine.hprim: no prime p divides y = B + 2Ax while p^2 divides A*P(x) (the forms met are primitive, gcd condition of Gauss "
+    "composition); discharged for fundamental D by relation_genuine_fundamental; for non-fundamental D it is the purpose of the conductor-prime "
+    "rejection, that implication is not proved",
+    "relation_genuine.hafs / haprod: A is the product of the listed odd primes of A, each with a correct stored root (select_siqs_factors is not modelled)",
     "invariants_multiply takes `diag.prod = h` (the Smith form output, property C19) as its hypothesis; C18C19.reported_invariants_multiply "
     "discharges it with C19 snf_diag and takes instead two facts about the state returned by SmithNormalForm::reduce that C19 does not prove: "
     "snf_square (rows.len() = gens.len()) and snf_diag_nonneg (diagonal entries >= 0, so that `d as u128` does not wrap); both are checked on every "
@@ -1941,12 +2110,18 @@ MODELLED = [
     "compared through a hook dump (Ymq/Model/ClassGroupFilter.lean)",
     "reference (not code): reduced primitive forms, classNumber, reduction, Gauss composition, prime forms (used to re-check relation lines "
     "and class numbers of real runs inside the Lean driver)",
+    "classgroup::legendre with arith::Dividers::{new, mod_uint, modu63} as it uses them (Ymq/Model/ClassGroupLegendre.lean), every panic site of the checked profile; op cg_legendre (hook vh_legendre)",
 ]
 UNMODELLED = [
     "classgroup::estimate (f64 truncated Euler product): there is no theorem that it brackets h; explored by K/O only "
     "(every reported h is compared with an independent count)",
-    "that a sieved relation is a genuine relation (composition of forms / ideal arithmetic): every relation line of the sampled runs is "
-    "re-checked by independent form arithmetic (Python) and by the model's form arithmetic (Lean driver), not proved",
+    "that composition of forms is well defined on proper equivalence classes and makes them a group (Gauss): relation_genuine exhibits, for every "
+    "relation built by relationOf, an explicit chain of Dirichlet compositions of the prime forms of its entries ending at the principal form; "
+    "identifying that with `the product of the classes is trivial` in the abstract class group is classical and not formalised. The model's "
+    "Form.compose (Cohen 5.4.7, used by the driver to re-check relation lines) is not proved equal to Dirichlet composition (reduce/normalize are: reduce_pequiv); "
+    "every relation line of the sampled runs is still re-checked by independent form arithmetic (Python) and by the model's form arithmetic (Lean driver)",
+    "classgroup::smoothness_bias (f64) and the release-profile value of legendre on composite moduli (never passed by the callers); "
+    "arith::Dividers beyond new/mod_uint/modu63 as used by legendre",
     "the sieve itself (sieve::Sieve, smooths), select_siqs_factors/select_a/prepare_a, Poly::first/next, try_factor64, FBase::new / sqrt_mod "
     "(C08), the sparse-path filtering loop of group_structure_sparse (same RelFilterSparse primitives, other stopping rule), determinant / lattice index / Smith form (C19), "
     "group_structure_sparse (returns no invariants: `FIXME: structure is incomplete` in the source), file output, rayon, RwLock",
